@@ -223,7 +223,7 @@ def post(recs, cases):
 
 
 SPEC = {
-    'lean': ['C07'],
+    'lean': ['C07', 'NatSemIO'],
     'cases': cases,
     'stream': 'C07 bind-tree stream',
     'rule': 'random bind trees (depth ≤ 4 / 6, left- and right-nested, continuations that ignore / print / return their '
